@@ -88,6 +88,29 @@ def run(ctx):
                     if d: viol(f'{kind}: member {i} of MultiSim(n_runs={n_runs}, base seed {base}) differs from the standalone run with seed {base + i} (first difference: {d[0]})', dict(W, member=i))
         except Exception as E:
             viol(f'{kind}: MultiSim run raised {type(E).__name__}: {E}', W); continue
+        # a serial run of a list with inplace=False leaves the caller's sims alone; summaries are the stated statistics of the members whatever was summarised before
+        try:
+            if ci % 3 == 2:
+                mine2 = [make_sim(kind, sd) for sd in (base + 1, base + 2)]
+                ms_ser = ss.MultiSim(mine2, inplace=False, shrink=False); ms_ser.run(parallel=False)
+                ctx.count((kind, base, 'serial-list-not-inplace'), nontrivial=True); ctx.dist('serial list, not in place')
+                if any(getattr(x, 'complete', False) or getattr(x, 'initialized', False) for x in mine2) or any(a is b for a in ms_ser.sims for b in mine2):
+                    viol(f'{kind}: MultiSim([..], inplace=False).run(parallel=False) ran the caller\'s own sim objects (they are initialised / complete, or are the returned members)', dict(W, mode='serial-list-not-inplace'))
+                for i, (sd, s_) in enumerate(zip((base + 1, base + 2), ms_ser.sims)):
+                    d = diff_keys(alone(kind, sd), fingerprint(s_, states=False))
+                    if d: viol(f'{kind}: serial MultiSim([..]) member {i} differs from its standalone run ({d[0]})', dict(W, member=i))
+            sm1 = msim.summarize()
+            fresh = [m.summarize() for m in copy.deepcopy(list(msim.sims))]
+            msim.summarize(how='last'); sm2 = msim.summarize()
+            ctx.count((kind, base, 'summarize'), nontrivial=True); ctx.dist('summarize')
+            for k in list(sm1.keys())[:40]:
+                want = float(np.mean([f[k] for f in fresh]))
+                for tag, sm in (('first', sm1), ('after a non-default summary', sm2)):
+                    got = float(sm[k]['mean']) if hasattr(sm[k], 'keys') else float(sm[k])
+                    if not np.isclose(got, want, rtol=1e-10, atol=1e-12, equal_nan=True):
+                        viol(f'{kind}: MultiSim.summarize() ({tag}) reports mean {got} for {k}; the mean of the members\' summaries is {want}', dict(W, key=k, when=tag)); break
+        except Exception as E:
+            viol(f'{kind}: summarize / serial list raised {type(E).__name__}: {E}', W)
         # reduced statistics
         try:
             members = list(msim.sims)
